@@ -158,6 +158,15 @@ def stepLine (st : DState) (line : String) : DState × String :=
       | .ok h' => ({ st with hdrs := h' }, "ok " ++ h'.show)
       | .error e => (st, "err " ++ e.show ++ " " ++ st.hdrs.show)
     | none => (st, "bad-op")
+  | ["hdrsetaccept", m] =>
+    match m with
+    | "json" => let h' := { st.hdrs with accept := .applicationJson }; ({ st with hdrs := h' }, "ok " ++ h'.show)
+    | "plain" => let h' := { st.hdrs with accept := .plainText }; ({ st with hdrs := h' }, "ok " ++ h'.show)
+    | _ => (st, "bad-op")
+  | ["hdrinsert", k, v] =>
+    match unhex k, unhex v with
+    | some k, some v => let h' := { st.hdrs with custom := insertCustom st.hdrs.custom k v }; ({ st with hdrs := h' }, "ok " ++ h'.show)
+    | _, _ => (st, "bad-op")
   | ["hdrblock", h] =>
     match unhex h with
     | some bs =>
